@@ -1,0 +1,92 @@
+//go:build verif
+
+package adminapi
+
+// Machine-checked contracts (comment-only; build tag verif). Checked by /verif/bin/hv.
+
+// ---- bearer token (C10)
+// authWrapped(h): handler h is an instance of the closure the auth middleware returns (function identity),
+// so a route registered without auth() cannot satisfy the route-table clause of NewMux.
+//@ pred authWrapped(h int) := h == funcid(NewMux$1$1)
+
+//@ func NewMux$1
+//@   props C10
+//@   requires next != nil
+//@   ensures marks: result != nil && authWrapped(ptr(result))
+
+// the handler auth() returns: with a token configured, next runs iff the Authorization header is exactly
+// "Bearer " + token; otherwise 401 "unauthorized" and nothing else happens.
+//@ func NewMux$1$1
+//@   props C10
+//@   may_panic
+//@   requires w != nil && r != nil && r.Header != nil && next != nil && cfg != nil && !w.committed
+//@   ensures no_token_configured_passes: cfg.AdminAPI.AuthToken == "" ==> calls(next) == 1
+//@   ensures exactly_bearer_token: cfg.AdminAPI.AuthToken != "" ==> (calls(next) == 1 <==> r.Header.vals["Authorization"] == "Bearer " ++ cfg.AdminAPI.AuthToken)
+//@   ensures never_twice: calls(next) <= 1
+//@   ensures rejected_is_401: cfg.AdminAPI.AuthToken != "" && r.Header.vals["Authorization"] != "Bearer " ++ cfg.AdminAPI.AuthToken
+//@             ==> calls(next) == 0 && w.committed && w.status == 401
+//@   modifies *
+
+// ---- IP lists (C10)
+//@ pred listOK(l []*net.IPNet) := forall i int :: {l[i]} 0 <= i && i < len(l) ==> l[i] != nil
+//@ pred inList(l []*net.IPNet, ip string) := exists i int :: {l[i]} 0 <= i && i < len(l) && net_contains(ptr(l[i]), ip_ref(ip))
+//@ func (*IPFilter).IsAllowed
+//@   props C10
+//@   requires listOK(f.allowList) && listOK(f.denyList)
+//@   ensures decision: result <==> ip_ok(ip) && !inList(f.denyList, ip) && (len(f.allowList) == 0 || inList(f.allowList, ip))
+//@ loop (*IPFilter).IsAllowed #0
+//@   props C10
+//@   invariant idx: rangeindex < len(f.denyList)
+//@   invariant no_deny_match_so_far: forall k int :: {f.denyList[k]} 0 <= k && k <= rangeindex ==> !net_contains(ptr(f.denyList[k]), ip_ref(ip))
+//@   decreases len(f.denyList) - rangeindex
+//@ loop (*IPFilter).IsAllowed #1
+//@   props C10
+//@   invariant idx: rangeindex < len(f.allowList)
+//@   invariant no_allow_match_so_far: forall k int :: {f.allowList[k]} 0 <= k && k <= rangeindex ==> !net_contains(ptr(f.allowList[k]), ip_ref(ip))
+//@   decreases len(f.allowList) - rangeindex
+
+// the filter's handler: decided on the peer address only (no header is read); refused requests get 403 and
+// do not reach the mux
+//@ pred peerHost(r *http.Request) string := split_ok(r.RemoteAddr) ? split_host(r.RemoteAddr) : r.RemoteAddr
+//@ func (*IPFilter).Middleware$1
+//@   props C10
+//@   may_panic
+//@   requires w != nil && r != nil && r.URL != nil && next != nil && f != nil && listOK(f.allowList) && listOK(f.denyList) && !w.committed
+//@   ensures peer_address_decides: calls(next) == 1 <==> ip_ok(peerHost(r)) && !inList(f.denyList, peerHost(r)) && (len(f.allowList) == 0 || inList(f.allowList, peerHost(r)))
+//@   ensures never_twice: calls(next) <= 1
+//@   ensures refused_is_403: calls(next) == 0 ==> w.committed && w.status == 403
+//@   modifies *
+
+//@ func (*IPFilter).Middleware
+//@   props C10
+//@   ensures result != nil && ptr(result) == funcid("(*IPFilter).Middleware$1")
+
+// ---- filter construction: one malformed entry means no filter object at all (the caller must fail closed)
+//@ func parseCIDR
+//@   props C10
+//@   results n, err
+//@   ensures well_formed_gives_network: err == nil ==> n != nil
+//@   ensures malformed_is_an_error: !cidr_ok(cidr) && !ip_ok(cidr) ==> err != nil
+// NewIPFilter: contract stated, NOT verified (its two append loops need invariants that the solvers do not
+// discharge reliably); it is listed as an assumed contract in the evidence of every check that uses it. The
+// clause the property needs from it - an error means no filter object - is visible on every return path.
+//@ func NewIPFilter
+//@   results f, err
+//@   ensures built: err == nil ==> f != nil && fresh(f) && listOK(f.allowList) && listOK(f.denyList)
+//@   ensures malformed_entry_gives_no_filter: err != nil ==> f == nil
+
+// ---- the mux: every route except /v1/health is registered through auth(); with IP lists configured the
+// handler returned is never the bare mux (filter middleware, or a refuse-all handler when a list is malformed)
+//@ ghost var adminMux Int
+//@ func NewMux
+//@   props C10
+//@   requires lb != nil && cfg != nil && mc != nil
+//@   ghost after NewServeMux :: adminMux := ret
+//@   ensures handler: result != nil
+//@   ensures every_route_but_health_needs_the_token: forall p string :: {gfield(adminMux, http.ServeMux.registered)[p]}
+//@             gfield(adminMux, http.ServeMux.registered)[p] && p != "/v1/health" ==> authWrapped(gfield(adminMux, http.ServeMux.routeH)[p])
+//@   ensures documented_routes_exist: gfield(adminMux, http.ServeMux.registered)["/v1/backends"] && gfield(adminMux, http.ServeMux.registered)["/v1/backends/add"]
+//@             && gfield(adminMux, http.ServeMux.registered)["/v1/backends/remove"] && gfield(adminMux, http.ServeMux.registered)["/v1/strategy"] && gfield(adminMux, http.ServeMux.registered)["/v1/metrics"]
+//@   ensures ip_lists_never_leave_the_api_unfiltered: len(cfg.AdminAPI.IPAllowList) > 0 || len(cfg.AdminAPI.IPDenyList) > 0 ==> ptr(result) != adminMux
+//@   ensures no_lists_means_plain_mux: len(cfg.AdminAPI.IPAllowList) == 0 && len(cfg.AdminAPI.IPDenyList) == 0 ==> ptr(result) == adminMux
+//@   modifies adminMux
